@@ -91,6 +91,7 @@ type c15Case struct {
 	State    string
 	Mech     string // "" | uid | uid+present | chattr-dir
 	LogPre   bool   // a log file with sentinel content exists before the run
+	LogDev   bool   // ... and that "log file" is a symbolic link to /dev/null (every write succeeds, fsync does not)
 	Sentinel string // go | garbage
 	Spelling string // rel | abs | root
 	Strace   bool
@@ -389,6 +390,7 @@ func (x *c15ctx) runCase(c *c15Case) *c15Obs {
 		}
 		o.Cwd, inArg, outArg = sub, "../"+c.In.Input, "../"+outName
 	default:
+		// "gofile": as "rel", but the input is named by $GOFILE (go generate) instead of an argument
 		o.Cwd, inArg, outArg = pkgDir, c.In.Input, outName
 	}
 	if c.Out {
@@ -409,7 +411,9 @@ func (x *c15ctx) runCase(c *c15Case) *c15Obs {
 	if c.Out {
 		o.Args = append(o.Args, "-out", outArg)
 	}
-	o.Args = append(o.Args, inArg)
+	if c.Spelling != "gofile" {
+		o.Args = append(o.Args, inArg)
+	}
 
 	// pre-state of the output (and log) path
 	write := func(p, content string) error { return os.WriteFile(p, []byte(content), 0o644) }
@@ -447,11 +451,18 @@ func (x *c15ctx) runCase(c *c15Case) *c15Obs {
 		return fail("pre-state %s: %v", c.State, err)
 	}
 	if c.LogPre && c.State != "noparent" {
-		if err := write(o.LogAbs, c15Sentinel(c, "log")); err != nil {
+		if c.LogDev && o.LogAbs != o.OutAbs {
+			if err := os.Symlink("/dev/null", o.LogAbs); err != nil {
+				return fail("log pre-state: %v", err)
+			}
+		} else if err := write(o.LogAbs, c15Sentinel(c, "log")); err != nil {
 			return fail("log pre-state: %v", err)
 		}
 	}
 	spec := core.RunSpec{Args: o.Args, Dir: o.Cwd, WallSec: 120, Env: []string{"TMPDIR=" + tmp}}
+	if c.Spelling == "gofile" {
+		spec.Env = append(spec.Env, "GOFILE="+c.In.Input)
+	}
 	switch {
 	case c.State == "immutable":
 		if !x.immOK {
@@ -1001,7 +1012,7 @@ func RunC15(e *core.Env) int {
 					if rnd.Intn(4) == 0 {
 						c.Sentinel = "garbage"
 					}
-					c.Spelling = []string{"rel", "rel", "abs", "root", "sub", "symlink"}[rnd.Intn(6)]
+					c.Spelling = []string{"rel", "rel", "abs", "root", "sub", "symlink", "gofile"}[rnd.Intn(7)]
 					if st == "unwritable" {
 						c.Mech = []string{"uid", "uid+present", "chattr-dir", "uid-rofile"}[(bits+r+rnd.Intn(4))%4]
 					}
@@ -1013,8 +1024,9 @@ func RunC15(e *core.Env) int {
 					}
 					c.Strace = r == 0 && straceBits[bits] || straceEvery > 0 && c.Idx%straceEvery == 0
 					c.StdoutFull = c.Print && !c.Strace && (bits+si+ki+r)%3 == 1
+					c.LogDev = c.Log && c.LogPre && !c.Strace && (bits+si+ki+r)%3 == 2
 					c.ID = fmt.Sprintf("%s/%s/%s/%s%s/%s/r%d%s", k.name, c.In.Name, c.flagString(), st,
-						map[bool]string{true: "-" + c.Mech, false: ""}[c.Mech != ""], c.Spelling, r, map[bool]string{true: "/stdout-full", false: ""}[c.StdoutFull])
+						map[bool]string{true: "-" + c.Mech, false: ""}[c.Mech != ""], c.Spelling, r, map[bool]string{true: "/stdout-full", false: ""}[c.StdoutFull]) + map[bool]string{true: "/log-devnull", false: ""}[c.LogDev]
 					cases = append(cases, c)
 				}
 			}
